@@ -503,7 +503,7 @@ def run_history(ctx, case) -> None:
                     obj = make_object(world, op)
                 if key is not None and obj is not None:
                     built[key] = obj
-            except Exception as err:  # pylint: disable=broad-except
+            except ValueError as err:
                 ctx.count("skipped:spec-rejected-by-constructor")
                 ctx.extra.setdefault("constructor_rejections", [])
                 if len(ctx.extra["constructor_rejections"]) < 3:
